@@ -12,7 +12,7 @@ import ast
 
 from sa.cfg import cfg_of
 from sa.dataflow import reaching
-from sa.fold import Evaluator, Raised, Unfoldable
+from sa.fold import Evaluator, Obj, Raised, Unfoldable
 from sa.guards import decide_with, find_calls
 from sa.loader import AnalysisError, FuncNode, call_name, calls_in, kwarg, walk_local
 
@@ -402,7 +402,105 @@ def r5(repo, res):
                clause="VCF mode fixes the structure to two copies", key=f"two-copies|{kind}")
 
 
+REF_SEQ = "ACGTTGCAACGG"  # reference bases at 0-based positions 100..111
+
+
+class RefGene:
+    _fold_ok = True
+
+    def __getitem__(self, i):
+        if isinstance(i, slice):
+            return "".join(self[j] for j in range(i.start, i.stop))
+        return REF_SEQ[i - 100] if 100 <= i < 100 + len(REF_SEQ) else "N"
+
+    def get_wide_region(self):
+        return Obj(start=100, end=112, samtools=lambda prefix="": "r")
+
+
+def vcf_record(pos0, ref, alts, gt):
+    return Obj(pos=pos0 + 1, ref=ref, alleles=tuple([ref] + list(alts)), samples={"S": {"GT": tuple(gt)}})
+
+
+def fold_records(f, records, multi=None):
+    """Lift the record converter and the record loop of _load_vcf and fold them on sample records."""
+    import collections as _c
+
+    conv = [n for n in f.body if isinstance(n, ast.FunctionDef)]
+    loop = _record_loop(f)
+    norm = {p: [(40, 40)] * 20 for p in range(100, 112)}
+    muts = _c.defaultdict(list)
+    me = Obj(gene=RefGene(), _multi_sites=dict(multi or {}), _prefix="")
+    env = {"self": me, "norm": norm, "muts": muts, "sample": "S", "vcf": Obj(fetch=lambda region=None: list(records))}
+    ev = Evaluator(env)
+    kind, val = ev.run(conv + [loop])
+    if kind == "raise":
+        raise Raised(val)
+    return {p: len(v) for p, v in norm.items()}, {k: len(v) for k, v in muts.items() if v}
+
+
+def r6(repo, res):
+    f = repo.func("sam::Sample._load_vcf")
+    base = {p: 20 for p in range(100, 112)}
+    cases = [
+        ("het substitution", [vcf_record(102, "G", ["T"], (0, 1))], None, {(102, "G>T"): 10}, {102: 10}),
+        ("hom substitution", [vcf_record(103, "T", ["A"], (1, 1))], None, {(103, "T>A"): 20}, {103: 0}),
+        ("phased het, alt first", [vcf_record(103, "T", ["A"], (1, 0))], None, {(103, "T>A"): 10}, {103: 10}),
+        ("hom reference", [vcf_record(103, "T", ["A"], (0, 0))], None, {}, {}),
+        ("het deletion (left-anchored record)", [vcf_record(103, "TTG", ["T"], (0, 1))], None, {(104, "delTG"): 10}, {104: 10}),
+        ("two alternates 1/2", [vcf_record(106, "C", ["A", "T"], (1, 2))], None, {(106, "C>A"): 10, (106, "C>T"): 10}, {106: 0}),
+        ("second alternate 0/2", [vcf_record(106, "C", ["A", "T"], (0, 2))], None, {(106, "C>T"): 10}, {106: 10}),
+        ("REF differs from the gene reference", [vcf_record(107, "G", ["T"], (0, 1))], None, {(107, "A>G"): 10, (107, "A>T"): 10}, {107: 0}),
+        ("ALT equals the gene reference", [vcf_record(107, "G", ["A"], (0, 1))], None, {(107, "A>G"): 10}, {107: 10}),
+        ("deletion whose record REF differs from the gene reference", [vcf_record(103, "TAG", ["T"], (0, 1))], None, {(104, "delTG"): 10}, {104: 10}),
+        ("half-missing genotype", [vcf_record(102, "G", ["T"], (None, 1))], None, {}, {}),
+        ("triploid genotype", [vcf_record(102, "G", ["T"], (0, 1, 1))], None, {}, {}),
+        ("unrelated complex record", [vcf_record(102, "GT", ["AAA"], (0, 1))], None, {}, {}),
+        ("multi-nucleotide substitution, adjacent records", [vcf_record(108, "A", ["G"], (0, 1)), vcf_record(109, "C", ["T"], (0, 1))],
+         {108: "AC>GT"}, {(108, "AC>GT"): 10}, {108: 10}),
+        ("multi-nucleotide substitution, one record", [vcf_record(108, "AC", ["GT"], (0, 1))], {108: "AC>GT"}, {(108, "AC>GT"): 10}, {108: 10}),
+    ]
+    n = 0
+    for label, recs, multi, want_muts, want_norm in cases:
+        try:
+            norm, muts = fold_records(f, recs, multi)
+        except (Unfoldable,) as e:
+            res.err("C16.R6", f"record loop of _load_vcf outside folding language: {e}")
+            return
+        except Raised as e:
+            res.ob("C16.R6", f, f, False, expected=f"{label}: handled", found=f"raises {e.kind}",
+                   clause="records of any other shape are ignored without failing the run", key=f"evidence:{label}")
+            continue
+        wn = dict(base)
+        wn.update(want_norm)
+        n += 1
+        res.ob("C16.R6", f, f, muts == want_muts and norm == wn,
+               expected=f"{label}: variant support {want_muts}, reference support changed at {want_norm}",
+               found=f"variant support {muts}, reference support changed at { {p: c for p, c in norm.items() if c != 20} }",
+               clause="support proportional to the number of alternate copies, reference support reduced accordingly; records whose REF differs "
+                      "from the RefSeq-derived reference are re-expressed against it; other shapes ignored",
+               key=f"evidence:{label}")
+    res.count("C16.R6:sample records folded", n)
+    # the consumer must not let an all-zero indel table entry shadow the evidence of a VCF deletion
+    init = repo.func("coverage::Coverage.__init__")
+    res.analysed(init)
+    try:
+        me = Obj()
+        Evaluator({"self": me, "gene": "G", "profile": "P", "sam": "S", "coverage": {104: {"delTG": [1] * 10, "_": [1] * 10}},
+                   "indel_coverage": {(104, "delTG"): [0, 0], (90, "insA"): [0, 0]}, "cnv_coverage": {}}).run(
+            [s_ for s_ in init.body if not (isinstance(s_, ast.Expr) and isinstance(s_.value, ast.Constant))])
+        cov = repo.func("coverage::Coverage.coverage")
+        k, v = Evaluator({"self": me, "mut": Obj(pos=104, op="delTG")}).run(
+            [s_ for s_ in cov.body if not (isinstance(s_, ast.Expr) and isinstance(s_.value, ast.Constant))])
+    except (Unfoldable, Raised) as e:
+        res.err("C16.R6", f"Coverage.__init__/coverage outside folding language: {e}")
+        return
+    res.ob("C16.R6", init, init, k == "return" and v == 10,
+           expected="a deletion supported by VCF pseudo-reads keeps its support although the (unfilled) indel table lists it with zero counts",
+           found=f"support read back: {v}", clause="indel support table takes precedence over parsed insertions only", key="zero-indel-entry")
+
+
 def run(repo, res):
+    r6(repo, res)
     r1(repo, res)
     r2(repo, res)
     r3(repo, res)
@@ -467,6 +565,13 @@ MUTANTS = [
          old="            self._fusion_counter,\n            self._indel_sites,\n        ) = pickle.load(",
          new="            self._fusion_counter,\n            _unused,\n        ) = pickle.load(\n            fd\n        )\n        muts[0, \"ins\" + self.name] = []\n        _ = (",
          ),
+    dict(name="R6 op spelled from the record's REF (seeded C16_1 shape)", module="sam", expect="C16.R6",
+         old='                return off + pos, f"{self.gene[off + pos]}>{alt[off]}"', new='                return off + pos, f"{ref[off]}>{alt[off]}"'),
+    dict(name="R6 zero indel entries shadow VCF deletions (seeded C16_4 shape)", module="coverage", expect=["C16.R6"],
+         old="            self._indels = {k: (n, y) for k, (n, y) in indel_coverage.items() if y}",
+         new="            self._indels = {k: (n, y) for k, (n, y) in indel_coverage.items()}"),
+    dict(name="R6 deletion keyed at the anchor base", module="sam", expect="C16.R6",
+         old='                return off + pos, f"del{self.gene[off + pos : pos + len(ref)]}"', new='                return pos, f"del{self.gene[off + pos : pos + len(ref)]}"'),
     # benign
     dict(name="benign: `not op` test", module="sam", kind="benign",
          old='                    if op is None or op == "_":', new='                    if not op or op == "_":'),
